@@ -132,6 +132,13 @@ pub fn apply(bytes: &[u8], sp: &[Span], mu: &Mutation, chunk: usize) -> Option<V
             b.insert(end, 0x5a);
             wr(&mut b, s.off, s.width, (s.len + 1) as u64);
         },
+        "append-zero" => {
+            if (s.len as u64) >= maxv {
+                return None;
+            }
+            b.insert(end, 0);
+            wr(&mut b, s.off, s.width, (s.len + 1) as u64);
+        },
         "prefix+1" => wr(&mut b, s.off, s.width, (s.len as u64 + 1) & maxv),
         "prefix-1" => {
             if s.len == 0 {
